@@ -154,8 +154,8 @@ def OP(ar, **kw):
 
 INT_OPS = {
     'add': OP(2, u='x + y'), 'sub': OP(2, u='x - y'),
-    'mullo': OP(2, u='(uint64_t)x * (uint64_t)y'),
-    'mullox': OP(2, u='(uint64_t)x * (uint64_t)y'),
+    'mullo': OP(2, u='AVM_MUL_u64((uint64_t)x, (uint64_t)y)'),
+    'mullox': OP(2, u='AVM_MUL_u64((uint64_t)x, (uint64_t)y)'),
     'mulhi': OP(2, i='(uint32_t)(((int32_t)sx * (int32_t)sy) >> 16)', u='((uint32_t)x * (uint32_t)y) >> 16'),
     'min': OP(2, i='sx < sy ? x : y', u='x < y ? x : y'), 'max': OP(2, i='sx > sy ? x : y', u='x > y ? x : y'),
     'avg': OP(2, u='((uint32_t)x + (uint32_t)y + 1u) >> 1'),
@@ -692,7 +692,7 @@ def r_mul_wide(name):
         W = int(m.group(1) or 128)
         R = REG[W]
         if m.group(2) == 'epu32':
-            e = '(uint64_t)AVM_L32(a, 2 * i) * (uint64_t)AVM_L32(b, 2 * i)'
+            e = 'AVM_MUL_u64((uint64_t)AVM_L32(a, 2 * i), (uint64_t)AVM_L32(b, 2 * i))'
         else:
             e = '(uint64_t)((int64_t)(int32_t)AVM_L32(a, 2 * i) * (int64_t)(int32_t)AVM_L32(b, 2 * i))'
         return Model(name, R, [(R, 'a'), (R, 'b')], '  %s r;\n  for (int i = 0; i < %d; i++) r.q[i] = %s;\n  return r;\n' % (R, W // 64, e))
